@@ -169,7 +169,7 @@ pub fn templates(prop: &str) -> Vec<Template> {
                     family: "orswot",
                     discs: vec![Disc::Causal, Disc::Fifo],
                     repls,
-                    clauses: vec!["model", "ctx.consistent", "quiesce"],
+                    clauses: vec!["model", "ctx.consistent", "quiesce", "pending"],
                     faults: with(&NET, &["crash", "stale_state"]),
                     ..T::default()
                 }));
@@ -241,7 +241,7 @@ pub fn templates(prop: &str) -> Vec<Template> {
                     family: f,
                     discs: discs_of(f),
                     repls: if mergeable(f) { vec![Repl::Ops, Repl::Hybrid, Repl::State] } else { vec![Repl::Ops] },
-                    clauses: vec!["redundant.op", "redundant.state", "redundant.eq", "ktable.obs", "model.vals"],
+                    clauses: vec!["redundant.op", "redundant.state", "redundant.eq"],
                     faults: with(&NET, &["crash", "stale_state"]),
                     p_probe: 120,
                     edits: (2, 10),
@@ -335,6 +335,7 @@ pub fn templates(prop: &str) -> Vec<Template> {
                 clauses: vec!["validate.deliver", "validate.any"],
                 faults: NET.to_vec(),
                 misuse: true,
+                quiesce: false,
                 p_probe: 150,
                 ..T::default()
             }));
@@ -390,7 +391,7 @@ pub fn templates(prop: &str) -> Vec<Template> {
                     family: f,
                     discs: discs_of(f),
                     repls: if mergeable(f) { vec![Repl::Ops, Repl::Hybrid, Repl::State] } else { vec![Repl::Ops] },
-                    clauses: vec!["serde.probe", "ktable.obs", "ktable.eq"],
+                    clauses: vec!["serde.probe", "restart.ghost"],
                     faults: vec!["bounce", "bounce", "crash", "crash", "dup", "drop", "stale_state"],
                     json: true,
                     p_probe: 80,
